@@ -242,98 +242,103 @@ def _pkg_replay(kind, deb, members, symlinks, extra):
     r.update(extra)
     return r
 
-def packages(chk, work, count, stats, cli_every=4):
+def check_package(work, name, members, symlinks, dirs, stats, sequence=False, inject=False, via_cli=False, keep=None):
+    """one package through the real tool → list of discrepancies (empty = the clause holds on it)"""
+    M.H.ready()
+    from lib import cli
+    found = []
+    other = work.write('plain/other.txt', b'just a text file\n')
+    try:
+        deb = M.build_deb(work, name, members, symlinks, dirs)
+        xroot = M.extract_deb(work, deb, name)
+    except common.Infra as exc:
+        stats['build_failed'] += 1
+        stats['build_error:' + str(exc)[:80]] += 1
+        return found
+    if keep is not None:
+        keep.append(deb)
+    stats['packages'] += 1
+    stats['members'] += len(members)
+    fake_root = deb + '/'
+    blocks = M.expected_member_blocks(xroot, members, fake_root, 'inproc')
+    stats['po_mo_members'] += len(blocks)
+    stats['members_with_output'] += sum(1 for v in blocks.values() if v)
+    opts = M.options(unpack_deb=True)
+    with M.TmpdirGuard(work) as guard:
+        out, exc = M.inproc(cli.check_file, deb, options=opts)
+        left = guard.leftovers()
+    lines = out.splitlines()
+    base = {'package': deb, 'output': lines[:60], 'exception': exc}
+    if exc:
+        found.append(_pkg_replay('package-exception', deb, members, symlinks, base))
+    elif left:
+        found.append(_pkg_replay('temporary-files-left', deb, members, symlinks, dict(base, leftovers=left)))
+    else:
+        bad = M.match_blocks(lines, blocks)
+        if bad:
+            found.append(_pkg_replay('package-output-differs', deb, members, symlinks, dict(base, mismatch=bad)))
+        elif opts.ignore_tags or opts.fake_root is not None:
+            found.append(_pkg_replay('options-changed-by-package', deb, members, symlinks, dict(base, options=repr(opts))))
+    # the run after a package: a later plain file must be reported as if alone
+    if sequence and not found:
+        opts = M.options(unpack_deb=True)
+        with M.TmpdirGuard(work) as guard:
+            out2, exc2 = M.inproc(cli.check_all, [deb, other, deb], options=opts)
+            left = guard.leftovers()
+        exp_other, _ = M.inproc(cli.check_all, [other], options=M.options(unpack_deb=True))
+        l2 = out2.splitlines()
+        stats['sequence_runs'] += 1
+        k = len(lines)
+        if exc2 or left or l2[k:k + 1] != exp_other.splitlines() or sorted(l2[:k]) != sorted(lines) or sorted(l2[k + 1:]) != sorted(lines):
+            found.append(_pkg_replay('file-after-package', deb, members, symlinks,
+                                     {'args': [deb, other, deb], 'exception': exc2, 'leftovers': left, 'expected_for_other': exp_other, 'got_around': l2[max(0, k - 1):k + 2]}))
+    # a member that makes the checker raise: the temporary tree must still go away (real check_deb, failing check_regular_file)
+    if inject and blocks and not found:
+        victim = sorted(blocks)[-1]
+        orig = cli.check_regular_file
+        def failing(path, *, options, _orig=orig):
+            if path.endswith('/' + victim):
+                raise RuntimeError('injected failure')
+            return _orig(path, options=options)
+        cli.check_regular_file = failing
+        try:
+            with M.TmpdirGuard(work) as guard:
+                out3, exc3 = M.inproc(cli.check_file, deb, options=M.options(unpack_deb=True))
+                left = guard.leftovers()
+        finally:
+            cli.check_regular_file = orig
+        stats['injected_failures'] += 1
+        if left or not (exc3 or '').startswith('RuntimeError'):
+            found.append(_pkg_replay('temporary-files-left-after-failure', deb, members, symlinks, {'leftovers': left, 'exception': exc3, 'failing_member': victim}))
+    # the command-line tool itself
+    if via_cli and not found:
+        tdir = M.tempfile.mkdtemp(prefix='cliT.', dir=work.root)
+        rel_deb = os.path.relpath(deb, work.root)
+        r = M.E.run_cli(['--unpack-deb', rel_deb, 'plain/other.txt'], work.root, extra_env={'TMPDIR': tdir})
+        stats['cli_runs'] += 1
+        exp = [l.replace(fake_root, rel_deb + '/', 1) for l in lines]
+        got = r['stdout'].splitlines()
+        left = M.snapshot(tdir)
+        ok = r['rc'] == 0 and not r['stderr'] and sorted(got[:-1]) == sorted(exp) and got[-1:] == ['I: plain/other.txt: unknown-file-type'] and not left
+        if ok:
+            ok = M.match_blocks(got[:-1], {k: [l.replace(fake_root, rel_deb + '/', 1) for l in v] for k, v in blocks.items()}) is None
+        if not ok:
+            found.append(_pkg_replay('cli-package-run', deb, members, symlinks, {'rc': r['rc'], 'stderr': r['stderr'][-500:], 'stdout': got[:40], 'expected_multiset': exp[:40], 'leftovers': left}))
+    shutil_rm(xroot)
+    return found
+
+def packages(chk, work, count, stats, cli_every=4, keep=None):
     """--unpack-deb: output = per-member outputs under <package>/<member>, nothing else, nothing left in TMPDIR"""
     rng = chk.rng
     M.H.ready()
     from lib import cli
     found = []
-    other = work.write('plain/other.txt', b'just a text file\n')
     for idx in range(count):
         members, symlinks, dirs = gen_package(rng, idx)
-        name = f'pkg{idx}'
-        try:
-            deb = M.build_deb(work, name, members, symlinks, dirs)
-            xroot = M.extract_deb(work, deb, name)
-        except common.Infra as exc:
-            stats['build_failed'] += 1
-            stats['build_error:' + str(exc)[:80]] += 1
-            continue
-        stats['packages'] += 1
-        stats['members'] += len(members)
-        fake_root = deb + '/'
-        blocks = M.expected_member_blocks(xroot, members, fake_root, 'inproc')
-        stats['po_mo_members'] += len(blocks)
-        stats['members_with_output'] += sum(1 for v in blocks.values() if v)
-        opts = M.options(unpack_deb=True)
-        with M.TmpdirGuard(work) as guard:
-            out, exc = M.inproc(cli.check_file, deb, options=opts)
-            left = guard.leftovers()
-        lines = out.splitlines()
-        base = {'package': deb, 'output': lines[:60], 'exception': exc}
-        if exc:
-            found.append(_pkg_replay('package-exception', deb, members, symlinks, base))
-        elif left:
-            found.append(_pkg_replay('temporary-files-left', deb, members, symlinks, dict(base, leftovers=left)))
-        else:
-            bad = M.match_blocks(lines, blocks)
-            if bad:
-                found.append(_pkg_replay('package-output-differs', deb, members, symlinks, dict(base, mismatch=bad)))
-            elif opts.ignore_tags or opts.fake_root is not None:
-                found.append(_pkg_replay('options-changed-by-package', deb, members, symlinks, dict(base, options=repr(opts))))
+        found += check_package(work, f'pkg{idx}', members, symlinks, dirs, stats, sequence=idx % 3 == 0, inject=idx % 4 == 1, via_cli=idx % cli_every == 0, keep=keep)
         if found:
             return found
-        # the run after a package: a later plain file must be reported as if alone
-        if idx % 3 == 0:
-            opts = M.options(unpack_deb=True)
-            with M.TmpdirGuard(work) as guard:
-                out2, exc2 = M.inproc(cli.check_all, [deb, other, deb], options=opts)
-                left = guard.leftovers()
-            exp_other, _ = M.inproc(cli.check_all, [other], options=M.options(unpack_deb=True))
-            l2 = out2.splitlines()
-            stats['sequence_runs'] += 1
-            k = len(lines)
-            if exc2 or left or l2[k:k + 1] != exp_other.splitlines() or sorted(l2[:k]) != sorted(lines) or sorted(l2[k + 1:]) != sorted(lines):
-                found.append(_pkg_replay('file-after-package', deb, members, symlinks,
-                                         {'args': [deb, other, deb], 'exception': exc2, 'leftovers': left, 'expected_for_other': exp_other, 'got_around': l2[max(0, k - 1):k + 2]}))
-                return found
-        # a member that makes the checker raise: the temporary tree must still go away (real check_deb, failing check_regular_file)
-        if idx % 4 == 1 and blocks:
-            victim = sorted(blocks)[-1]
-            orig = cli.check_regular_file
-            def failing(path, *, options, _orig=orig):
-                if path.endswith('/' + victim):
-                    raise RuntimeError('injected failure')
-                return _orig(path, options=options)
-            cli.check_regular_file = failing
-            try:
-                with M.TmpdirGuard(work) as guard:
-                    out3, exc3 = M.inproc(cli.check_file, deb, options=M.options(unpack_deb=True))
-                    left = guard.leftovers()
-            finally:
-                cli.check_regular_file = orig
-            stats['injected_failures'] += 1
-            if left or not (exc3 or '').startswith('RuntimeError'):
-                found.append(_pkg_replay('temporary-files-left-after-failure', deb, members, symlinks, {'leftovers': left, 'exception': exc3, 'failing_member': victim}))
-                return found
-        # the command-line tool itself
-        if idx % cli_every == 0:
-            tdir = os.path.join(work.root, f'cliT{idx}')
-            os.mkdir(tdir)
-            rel_deb = os.path.relpath(deb, work.root)
-            r = M.E.run_cli(['--unpack-deb', rel_deb, 'plain/other.txt'], work.root, extra_env={'TMPDIR': tdir})
-            stats['cli_runs'] += 1
-            exp = [M.rewrite_line(l, fake_root[:-1], rel_deb) if False else l.replace(fake_root, rel_deb + '/', 1) for l in lines]
-            got = r['stdout'].splitlines()
-            left = M.snapshot(tdir)
-            ok = r['rc'] == 0 and not r['stderr'] and sorted(got[:-1]) == sorted(exp) and got[-1:] == ['I: plain/other.txt: unknown-file-type'] and not left
-            if ok:
-                ok = M.match_blocks(got[:-1], {k: [l.replace(fake_root, rel_deb + '/', 1) for l in v] for k, v in blocks.items()}) is None
-            if not ok:
-                found.append(_pkg_replay('cli-package-run', deb, members, symlinks, {'rc': r['rc'], 'stderr': r['stderr'][-500:], 'stdout': got[:40], 'expected_multiset': exp[:40], 'leftovers': left}))
-                return found
-        shutil_rm(xroot)
-    # a file that is not a package, a truncated package
+    # a file that is not a package, a truncated package: reported as a plain file, nothing left behind
     for bad_name, data in [('corrupt.deb', b'not a deb\n'), ('trunc.deb', None), ('x.dsc', b'Format: 3.0 (quilt)\nSource: x\n')]:
         if data is None:
             src = os.path.join(work.root, 'pkg0.deb')
@@ -341,6 +346,8 @@ def packages(chk, work, count, stats, cli_every=4):
                 continue
             data = open(src, 'rb').read()[:200]
         p = work.write('bad/' + bad_name, data)
+        if keep is not None:
+            keep.append(p)
         with M.TmpdirGuard(work) as guard:
             out, exc = M.inproc(cli.check_file, p, options=M.options(unpack_deb=True))
             left = guard.leftovers()
